@@ -134,47 +134,75 @@ pub fn fn_seam_hook() {
 }
 
 /// Runs simulator code with allocator seams suppressed.
-fn in_sim<R>(f: impl FnOnce() -> R) -> R {
+pub(crate) fn in_sim<R>(f: impl FnOnce() -> R) -> R {
     let was = IN_SIM.with(|s| s.replace(true));
     let r = f();
     IN_SIM.with(|s| s.set(was));
     r
 }
 
-// ------------------------------------------------------------------ scheduler
-
-struct SchedState {
-    current: usize,
-    runnable: Vec<bool>,
-    /// threads currently waiting for the baton in `wait_for`
-    parked: Vec<bool>,
-    parked_in_op: Vec<bool>,
-    pos: usize,
-    trace: Vec<u8>,
-    seams: u64,
-    alloc_seams: u64,
-    fn_seams: u64,
-    switches_at_fn_entry: u64,
-    switches: u64,
-    switches_inside_op: u64,
-    switches_at_alloc: u64,
-    progress: u64,
-    stalls: u64,
+/// Runs code of the library under test (called back from simulator code, e.g.
+/// a serializer handing a field to its `Serialize` impl): allocator seams active.
+#[allow(dead_code)]
+pub(crate) fn in_lib<R>(f: impl FnOnce() -> R) -> R {
+    let was = IN_SIM.with(|s| s.replace(false));
+    let r = catch_unwind(AssertUnwindSafe(f));
+    IN_SIM.with(|s| s.set(was));
+    match r {
+        Ok(r) => r,
+        Err(p) => std::panic::resume_unwind(p),
+    }
 }
 
-struct Sched {
-    st: Mutex<SchedState>,
+/// Runs `f` with the allocator (and function-entry) seams of thread `me` armed,
+/// if the run has them enabled.
+#[allow(dead_code)]
+pub(crate) fn with_library_seams<R>(sched: &Sched, me: usize, enabled: bool, f: impl FnOnce() -> R) -> R {
+    if enabled && !sched.free {
+        ALLOC_SEAM.with(|c| c.set((sched as *const Sched, me)));
+    }
+    let r = catch_unwind(AssertUnwindSafe(f));
+    ALLOC_SEAM.with(|c| c.set((std::ptr::null(), 0)));
+    match r {
+        Ok(r) => r,
+        Err(p) => std::panic::resume_unwind(p),
+    }
+}
+
+// ------------------------------------------------------------------ scheduler
+
+pub(crate) struct SchedState {
+    pub(crate) current: usize,
+    pub(crate) runnable: Vec<bool>,
+    /// threads currently waiting for the baton in `wait_for`
+    pub(crate) parked: Vec<bool>,
+    pub(crate) parked_in_op: Vec<bool>,
+    pub(crate) pos: usize,
+    pub(crate) trace: Vec<u8>,
+    pub(crate) seams: u64,
+    pub(crate) alloc_seams: u64,
+    pub(crate) fn_seams: u64,
+    pub(crate) switches_at_fn_entry: u64,
+    pub(crate) switches: u64,
+    pub(crate) switches_inside_op: u64,
+    pub(crate) switches_at_alloc: u64,
+    pub(crate) progress: u64,
+    pub(crate) stalls: u64,
+}
+
+pub(crate) struct Sched {
+    pub(crate) st: Mutex<SchedState>,
     cv: Condvar,
     decisions: Vec<u8>,
     /// free-running: no baton; whoever executes this process (Miri's seeded
     /// scheduler, which preempts anywhere) decides the interleaving
-    free: bool,
+    pub(crate) free: bool,
 }
 
 const STALL: Duration = Duration::from_millis(500);
 
 impl Sched {
-    fn new(n: usize, decisions: Vec<u8>, free: bool) -> Self {
+    pub(crate) fn new(n: usize, decisions: Vec<u8>, free: bool) -> Self {
         Sched {
             free,
             st: Mutex::new(SchedState {
@@ -199,7 +227,7 @@ impl Sched {
         }
     }
 
-    fn choose(&self, st: &mut SchedState, me: Option<usize>) -> Option<usize> {
+    pub(crate) fn choose(&self, st: &mut SchedState, me: Option<usize>) -> Option<usize> {
         let run: Vec<usize> = (0..st.runnable.len()).filter(|&i| st.runnable[i]).collect();
         if run.is_empty() {
             return None;
@@ -241,7 +269,7 @@ impl Sched {
         st.parked[me] = false;
     }
 
-    fn start(&self, me: usize) {
+    pub(crate) fn start(&self, me: usize) {
         if self.free {
             return;
         }
@@ -250,11 +278,11 @@ impl Sched {
     }
 
     /// A scheduling point reached by thread `me`.
-    fn seam(&self, me: usize, inside_op: bool) {
+    pub(crate) fn seam(&self, me: usize, inside_op: bool) {
         in_sim(|| self.seam_kind(me, inside_op, 0))
     }
 
-    fn seam_kind(&self, me: usize, inside_op: bool, kind: u8) {
+    pub(crate) fn seam_kind(&self, me: usize, inside_op: bool, kind: u8) {
         if self.free {
             std::thread::yield_now();
             return;
@@ -290,7 +318,7 @@ impl Sched {
         }
     }
 
-    fn finish(&self, me: usize) {
+    pub(crate) fn finish(&self, me: usize) {
         if self.free {
             return;
         }
